@@ -704,4 +704,8 @@ def run(ctx):
     # aggregation rules (same rule instances as C13/merge-guards, C13/hull)
     from rules import c13 as _c13
     _c13.rule_merges(ctx, P="C06/mapping-extents")
+    # "the page of the stack pointer": the stack pointer is the thread's own rsp (same rule instances as C04/regs-source, C05/greg-map)
+    from rules import c04 as _c04, c05 as _c05
+    _c04.rule_regs_source(ctx, R="C06/stack-pointer/thread")
+    _c05.rule_greg_map(ctx, R="C06/stack-pointer/crash-context")
 
